@@ -42,6 +42,7 @@ def r_recover_domain(rep, prog):
             for o in lib.operands_of_rv(s["rv"]) + ([{"k": "copy", "place": s["rv"]["place"]}] if s["rv"]["k"] in ("ref",) else []):
                 pass
     rep.floor(rule, "bitfield selectors in recover", len(sites), 3)
+    guards = []
     for bi, t in sites:
         sel = tm.operand(t["args"][1])
         # (1) selector derived from iterating the bitfield array itself
@@ -73,10 +74,65 @@ def r_recover_domain(rep, prog):
             if is_bound and nx_sel and nx_sel <= nx_lhs and rel == "lt":
                 guarded = True
                 gdesc = "%s < %s" % (T.show(lhs), T.show(bound))
+        if guarded and not from_iter:
+            guards.append((t, sel))
         rep.check(from_iter or guarded, rule, "recover|selector|" + ("%s" % callee_name(b.term(t["target"])["callee"]) if b.term(t["target"])["k"] == "call" else "use"),
                   "selector inside the bitfield domain (%s)" % ("iterates self.bitfields" if from_iter else gdesc),
                   "self.bitfield(%s) is indexed from the table domain (tables x TREE_HUGE entries) without a bound check against "
                   "frames(): out of bounds whenever the last tree holds fewer than TREE_HUGE huge frames" % T.show(sel), t["span"])
+
+
+def r_recover_complete(rep, prog):
+    """Completeness half of the bound: the early exit may only drop table entries whose huge frame starts outside the
+    managed range. A tighter bound (e.g. frames() / LEN, the number of *fully* backed huge frames) silently leaves the
+    partially backed last huge frame unrepaired."""
+    rule = "R-RECOVER-COMPLETE"
+    rep.rule(rule, "recover repairs every entry whose huge frame starts below frames(): besides iterator exhaustion, the only "
+                   "condition under which an entry is skipped is exactly `start >= frames()` (or `start.as_huge() >= bitfields.len()`)")
+    b = lib.need_body(prog, RECOVER)
+    tm = T.Terms(b, prog)
+    loads = [(bi, t) for bi, t in lib.find_calls(b, "llfree::atomic::Atom::load")]
+    rep.floor(rule, "entry loads in recover", len(loads), 1)
+    sels = [tm.operand(t["args"][1]) for _, t in lib.find_calls(b, BITFIELD)]
+    frames_of = set()     # F with selector == as_huge(FrameId{F})
+    sel_canon = set()
+    for sel in sels:
+        sel_canon.add(T.canon(sel))
+        if sel[0] == "call" and sel[1] == "llfree::FrameId::as_huge" and sel[2] and sel[2][0][0] == "agg":
+            frames_of.add(T.canon(sel[2][0][2][0]))
+    for bi, t in loads:
+        n_guard = 0
+        for s, d in lib.controlling_edges(b, bi):
+            c = tm.operand(b.term(s)["discr"])
+            if c[0] != "bin" and any(x[0] == "call" and x[1].endswith("::next") for x in T.walk(c)) and not any(
+                    x[0] == "bin" for x in T.walk(c)):
+                continue      # Option discriminant of the iterator: exhaustion
+            pol = lib.bool_edge_polarity(b, s, d)
+            cmp_ = lib.normalize_cmp(c) if c[0] == "bin" else None
+            key = "recover|skip-guard"
+            if not cmp_ or pol is None:
+                rep.violation(rule, key, "an entry of the huge table is skipped under a condition the rule cannot read as a bound on "
+                              "its start frame: %s" % T.show(c)[:160], b.term(s)["span"])
+                continue
+            n_guard += 1
+            lhs, rel, rhs = cmp_ if pol else lib.negate_rel(cmp_)
+            # canonical orientation: small < big
+            if rel in ("gt", "ge"):
+                lhs, rhs, rel = rhs, lhs, {"gt": "lt", "ge": "le"}[rel]
+            cl, cr = T.canon(lhs), T.canon(rhs)
+            exact = False
+            why = ""
+            if rel == "lt" and cr == ("call", "llfree::lower::Lower::frames", (("p", "self"),)) and cl in frames_of:
+                exact, why = True, "start.0 < frames()"
+            elif rel == "lt" and any(cl == ("f", sc, 0) for sc in sel_canon) and cr[0] == "call" and cr[1] == "slice::len" and any(
+                    y[0] == "f" and y[3] == "bitfields" for y in T.walk(rhs)):
+                exact, why = True, "start.as_huge().0 < bitfields.len()"
+            rep.check(exact, rule, key, "entries are skipped only when %s fails" % why,
+                      "entries are processed only while %s %s %s; that is not the managed range (start.0 < frames(), equivalently "
+                      "start.as_huge().0 < bitfields.len() = ceil(frames / LEN)): a huge frame that is only partially backed, or any "
+                      "entry the bound cuts off, keeps its stale counter after a crash" % (T.show(lhs)[:120], rel, T.show(rhs)[:80]),
+                      b.term(s)["span"])
+        rep.check(True, rule, "recover|guards", "%d skip conditions examined" % n_guard)
 
 
 def r_recover_flow(rep, prog):
@@ -298,6 +354,7 @@ def r_rebuild_order(rep, prog):
 def run(rep, programs):
     prog = programs["core"]
     r_recover_domain(rep, prog)
+    r_recover_complete(rep, prog)
     r_recover_flow(rep, prog)
     r_init_dispatch(rep, prog)
     r_rebuild_order(rep, prog)
